@@ -105,6 +105,8 @@ def _menu():
             m["n_ene_blocks_eql"] = 1
             m["n_sr_blocks_eql"] = r.choice([1, 2])
             m["n_batch"] = r.choice([1, 2])
+            if random.Random(121400 + k).random() < 0.3:
+                m["n_eql"] = 0  # no equilibration sweeps (a restart from stored walkers): the first AD block is the first sampler call
             if random.Random(121200 + k).random() < 0.25:
                 # the fourth documented ad_mode: its own sampler entry point (propagate_phaseless_ad_1), reverse mode w.r.t. the two-body operator
                 m["ad_mode"] = "2rdm"
